@@ -180,7 +180,8 @@ SeqOf(S) == LET RECURSIVE mk(_) mk(T) == IF T = {} THEN <<>> ELSE
                      LET m == CHOOSE x \in T : \A y \in T : x <= y IN <<m>> \o mk(T \ {m})
             IN mk(S)
 Collect ==
-    LET U == Garbage
+    /\ TRUE        \* (keeps the action's own name in TLC's dumps)
+    /\ LET U == Garbage
         fin == {o \in U : h.dt[o] /\ (kind[o] \in {"W", "A"} \/ (kind[o] = "T" /\ ~alias[o]))}
         g == [h EXCEPT !.top = [o \in Ids |-> @[o] /\ o \notin U],
                        !.own = [o \in Ids |-> @[o] /\ (o \notin U \/ alias[o])],
@@ -188,7 +189,7 @@ Collect ==
                        !.og = [o \in Ids |-> @[o] /\ (o \notin U \/ (kind[o] = "T" /\ alias[o]))],
                        !.vr = [o \in Ids |-> @[o] /\ o \notin U],
                        !.ex = [e \in Ids |-> @[e] - Cardinality({v \in U : kind[v] = "V" /\ h.vr[v] /\ tgt[v] = e})]]
-    IN Step(Ev("collect", 0, "", 0, "", FALSE, SeqOf(fin), "", FALSE, 0), g)
+       IN Step(Ev("collect", 0, "", 0, "", FALSE, SeqOf(fin), "", FALSE, 0), g)
 
 \* probes
 ProbeLock(e) ==         \* e.extend(b"x"): BufferError iff ob_exports > 0
